@@ -644,6 +644,9 @@ class Exec:
         return self.arith(op, l, r, ln)
 
     def compare(self, op, l, r, ln):
+        if isinstance(l, B) and isinstance(r, B) and op in ("==", "!="):
+            same = Or(And(l, r), And(Not(l), Not(r)))
+            return same if op == "==" else Not(same)
         if not isinstance(l, T) or not isinstance(r, T):
             raise Unsupported("comparison of non-numbers at line %s" % ln)
         if tm.mentions(l, ("NAN",)) or tm.mentions(r, ("NAN",)):
